@@ -10,6 +10,7 @@ if git status --short | grep -q "^UU\|^AA\|^DU\|^UD"; then
       MANIFEST.json) git checkout --ours $f ;;
       tools/manifest/*.json) python3 tools/merge_manifest_fragment.py $(basename $f .json) $b ;;
       seeded/*) git checkout --theirs $f ;;
+      known_findings.json) python3 tools/merge_known.py $b ;;
       coq/Props/Properties_*) echo "PROPS CONFLICT $f: regenerate by hand"; git checkout --ours $f ;;
     esac
   done
